@@ -296,8 +296,7 @@ def rule_ax_fwd(repo, col, which=None):
         if q == 'generate_subsamples':
             wparams = param_names(f)
             for i, p in enumerate(['n', 'axis', 'by_id']):
-                ok = (len(c.args) > i and dotted(c.args[i]) == p) or \
-                    dotted(bound.get(p) or ast.Constant(None)) == p
+                ok = dotted(bound.get(p) or ast.Constant(None)) == p
                 col.check(ok, rule, rel, q, 'forward:%s' % p, c,
                           '%s forwarded' % p, '%s is not forwarded to '
                           'subsample' % p)
